@@ -29,6 +29,8 @@ var c16comments = []struct{ name, text string }{
 	{"block-leading-slash", " /*/ x */ "}, {"block-slashes", " /*// a /* b / */ "}, {"block-only-slash", " /*/*/ "}, {"block-dashes", " /*-- x --*/ "}, {"line-block-opener", " -- /* c\n"}, {"line-dashes", " ---- c --\n"}, {"block-quote", " /* it's \"q\" */ "}, {"two-blocks", " /* a */ /* b */ "},
 	{"two-lines", "\n-- a\n-- b\n"}, {"line-then-block", " -- a\n/* b */ "}, {"block-then-line", " /* a */-- b\n"}, {"three-mixed", "\n--a\n/*b*/\n--c\n"}, {"blocks-touching", " /* a *//* b */ "}, {"line-crlf-line", " -- a\r\n-- b\r\n"},
 	{"stars-1", " /***/ "}, {"stars-2", " /****/ "}, {"stars-3", " /*****/ "}, {"stars-6", " /* x ******/ "}, {"stars-9", " /* x *********/ "}, {"line-digit", " --1st\n"}, {"line-date", " --2024-01-01 x\n"}, {"line-zero", " --0\n"}, {"line-dash-digit", " ---1\n"},
+	// a line comment ended by a lone CR (the reader folds CR, CRLF and LF into one line break), alone, repeated, and followed by LF-ended ones
+	{"line-cr", " -- c\r"}, {"line-cr-line", " -- a\r-- b\r"}, {"line-cr-then-lf-line", " -- a\r -- b\n"}, {"line-empty-cr", " --\r"}, {"line-cr-block", " -- a\r/* b */ "},
 }
 
 // c16Gaps edits every whitespace gap of one generated statement.
@@ -192,7 +194,7 @@ func c16State(c *Ctx) {
 
 func checkC16(c *Ctx) (string, bool, []string) {
 	r := c.R
-	rule := "(A) 2-5 (one case in forty: 65-700, cycling through 12) generated statements joined by ';' with random whitespace, empty statements and optional trailing ';' must parse to exactly those statements (each equal to its stand-alone parse); joined by whitespace only must be rejected. (B)+(C) for one statement per (kind, clause subset) and random payload statements: EVERY whitespace gap x 6 whitespace substitutions x 24 comment insertions (six of them two or three comments in one gap, the second starting in column 0) (block, starred block, banner and odd-star terminators, empty block, multi-line block, blocks whose text begins with a slash or holds comment openers, dashes or quotes, two adjacent blocks, line, empty line comment, line comments holding a block opener or more dashes, line on its own line, line+CRLF) is enumerated and the AST compared with the baseline. Non-trivial = edited text differs from baseline; distinct by edited text."
+	rule := "(A) 2-5 (one case in forty: 65-700, cycling through 12) generated statements joined by ';' with random whitespace, empty statements and optional trailing ';' must parse to exactly those statements (each equal to its stand-alone parse); joined by whitespace only must be rejected. (B)+(C) for one statement per (kind, clause subset) and random payload statements: EVERY whitespace gap x 6 whitespace substitutions x every listed comment insertion, among them line comments ended by a lone CR (six of them two or three comments in one gap, the second starting in column 0) (block, starred block, banner and odd-star terminators, empty block, multi-line block, blocks whose text begins with a slash or holds comment openers, dashes or quotes, two adjacent blocks, line, empty line comment, line comments holding a block opener or more dashes, line on its own line, line+CRLF) is enumerated and the AST compared with the baseline. Non-trivial = edited text differs from baseline; distinct by edited text."
 	assume := []string{"the baseline rendering puts one space into every gap where whitespace is legal", "a comment is inserted only inside existing whitespace, flanked by whitespace"}
 	if c.Replay != nil {
 		local := map[string]int64{}
@@ -309,7 +311,7 @@ func c16Join(c *Ctx, i int, local map[string]int64) {
 		dumps = append(dumps, dumpOf(st))
 	}
 	ws := func() string {
-		return []string{"", " ", "\n", "\t", "\r\n", "  \n", " -- c\n", " /* c */ "}[rg.Intn(8)]
+		return []string{"", " ", "\n", "\t", "\r\n", "  \n", " -- c\n", " /* c */ ", " -- c\r", "\r"}[rg.Intn(10)]
 	}
 	var sb strings.Builder
 	if rg.P(0.2) {
